@@ -192,6 +192,29 @@ fn main() {
 			cases += 1;
 			expect_reject(&mut out, &format!("c01 block n={} sig-of-another-kernel victim={} sorted-index={}", n, donor, i), &verdict_block(&b, &po), &mut bad);
 		}
+		// every output of the block in turn - the coinbase output included - with the range proof
+		// of another output (well-formed, wrong); plus the coinbase output with the proof of a
+		// coinbase output of another block
+		let bo = blk.outputs().len();
+		for i in 0..bo {
+			if !thorough && bo > 8 && i > 2 && i + 3 < bo && !blk.outputs()[i].is_coinbase() {
+				continue;
+			}
+			let mut b = blk.clone();
+			let donor = (i + 1) % bo;
+			b.body.outputs[i].proof = blk.outputs()[donor].proof;
+			cases += 1;
+			let what = if blk.outputs()[i].is_coinbase() { "coinbase-output" } else { "output" };
+			expect_reject(&mut out, &format!("c01 block n={} proof-swapped {} index={}", n, what, i), &verdict_block(&b, &po), &mut bad);
+		}
+		{
+			let other = reward::output(&kc, &ProofBuilder::new(&kc), &key(6, n as u32), fees, false).unwrap();
+			let mut b = blk.clone();
+			let i = b.body.outputs.iter().position(|o| o.is_coinbase()).unwrap();
+			b.body.outputs[i].proof = other.0.proof;
+			cases += 1;
+			expect_reject(&mut out, &format!("c01 block n={} coinbase-output with the proof of another coinbase", n), &verdict_block(&b, &po), &mut bad);
+		}
 		// forged coinbase value: reward claimed for fees +- 1
 		for d in [-1i64, 1] {
 			let rw2 = reward::output(&kc, &ProofBuilder::new(&kc), &key(4, n as u32), (fees as i64 + d) as u64, false).unwrap();
